@@ -109,6 +109,13 @@ pub enum Ins
 	CmpImm(u8, E),
 	LdrOff(u8, u8, E),
 	Svc(E),
+	Udfw(E),
+	Udf(E),
+	Bkpt(E),
+	LslImm(u8, u8, E),
+	SubImm3(u8, u8, E),
+	StrbOff(u8, u8, E),
+	AddSp(E),
 	Branch(Option<Condition>, E),
 	Bl(E),
 	Adr(u8, E),
@@ -146,7 +153,7 @@ const COND_NAMES: [(&str, Condition); 16] = [
 
 impl Ins
 {
-	fn size(&self) -> u32 {if matches!(self, Ins::Bl(..)) {4} else if let Ins::Fixed(_, i) = self {enc(i).len() as u32} else {2}}
+	fn size(&self) -> u32 {if matches!(self, Ins::Bl(..) | Ins::Udfw(..)) {4} else if let Ins::Fixed(_, i) = self {enc(i).len() as u32} else {2}}
 
 	fn expr(&self) -> Option<&E>
 	{
@@ -154,7 +161,8 @@ impl Ins
 		{
 			Ins::Fixed(..) => None,
 			Ins::MovImm(_, e) | Ins::AddImm(_, e) | Ins::CmpImm(_, e) | Ins::LdrOff(_, _, e) | Ins::Svc(e) | Ins::Branch(_, e)
-				| Ins::Bl(e) | Ins::Adr(_, e) | Ins::LdrLit(_, e) => Some(e),
+				| Ins::Bl(e) | Ins::Adr(_, e) | Ins::LdrLit(_, e) | Ins::Udfw(e) | Ins::Udf(e) | Ins::Bkpt(e) | Ins::LslImm(_, _, e)
+				| Ins::SubImm3(_, _, e) | Ins::StrbOff(_, _, e) | Ins::AddSp(e) => Some(e),
 		}
 	}
 
@@ -175,6 +183,13 @@ impl Ins
 			Ins::LdrOff(d, a, e) => if rng.chance(1, 2) {format!("{} {}, [{} + {}]", m("LDR", rng), r(d, rng), r(a, rng), e.render(rng))}
 				else {format!("{} {}, [{} + {}]", m("LDR", rng), r(d, rng), e.render(rng), r(a, rng))},
 			Ins::Svc(e) => format!("{} {}", m("SVC", rng), e.render(rng)),
+			Ins::Udfw(e) => format!("{} {}", m("UDF.W", rng), e.render(rng)),
+			Ins::Udf(e) => format!("{} {}", m("UDF.N", rng), e.render(rng)),
+			Ins::Bkpt(e) => format!("{} {}", m("BKPT", rng), e.render(rng)),
+			Ins::LslImm(d, v, e) => format!("{} {}, {}, {}", m("LSLS", rng), r(d, rng), r(v, rng), e.render(rng)),
+			Ins::SubImm3(d, l, e) => format!("{} {}, {}, {}", m("SUBS", rng), r(d, rng), r(l, rng), e.render(rng)),
+			Ins::StrbOff(d, a, e) => format!("{} {}, [{} + {}]", m("STRB", rng), r(d, rng), r(a, rng), e.render(rng)),
+			Ins::AddSp(e) => format!("{} {sp}, {sp}, {}", m("ADD", rng), e.render(rng), sp = r(&13, rng)),
 			Ins::Branch(None, e) => format!("{} {}", m("B", rng), e.render(rng)),
 			Ins::Branch(Some(c), e) =>
 			{
@@ -199,6 +214,13 @@ impl Ins
 			Ins::CmpImm(d, _) => Instruction::Cmp{lhs: reg(*d), rhs: ImmReg::Immediate(i32::try_from(v).ok()?)},
 			Ins::LdrOff(d, a, _) => Instruction::Ldr{dst: reg(*d), addr: reg(*a), off: ImmReg::Immediate(i32::try_from(v).ok()?)},
 			Ins::Svc(_) => Instruction::Svc{info: u8::try_from(v).ok()?},
+			Ins::Udfw(_) => Instruction::Udfw{info: u16::try_from(v).ok()?},
+			Ins::Udf(_) => Instruction::Udf{info: u8::try_from(v).ok()?},
+			Ins::Bkpt(_) => Instruction::Bkpt{info: u8::try_from(v).ok()?},
+			Ins::LslImm(d, x, _) => Instruction::Lsl{dst: reg(*d), value: reg(*x), shift: ImmReg::Immediate(i32::try_from(v).ok()?)},
+			Ins::SubImm3(d, l, _) => Instruction::Sub{flags: true, dst: reg(*d), lhs: reg(*l), rhs: ImmReg::Immediate(i32::try_from(v).ok()?)},
+			Ins::StrbOff(d, a, _) => Instruction::Strb{src: reg(*d), addr: reg(*a), off: ImmReg::Immediate(i32::try_from(v).ok()?)},
+			Ins::AddSp(_) => Instruction::Add{flags: false, dst: Register::SP, lhs: Register::SP, rhs: ImmReg::Immediate(i32::try_from(v).ok()?)},
 			Ins::Branch(c, _) =>
 			{
 				let tgt = u32::try_from(v).ok()?;
@@ -386,6 +408,31 @@ fn expr_for(rng: &mut Rng, sym: Option<(&str, i64)>, want: i64) -> E
 				2 if want >= 0 => E::Bin("|", Box::new(E::Num(want & 0x55)), Box::new(E::Num(want & !0x55))),
 				3 if want >= 0 && want < (1 << 40) => E::Bin(">>", Box::new(E::Num(want << 3)), Box::new(E::Num(3))),
 				_ => E::Num(want),
+			}
+		},
+		Some((name, v)) if rng.chance(1, 3) =>
+		{
+			// a term over the symbol using the other operators (every node kind must survive deferral), corrected additively
+			let s = || Box::new(E::Name(name.to_owned()));
+			let k = 1 + rng.below(60) as i64;
+			let term = match rng.below(9)
+			{
+				0 => E::Bin("^", s(), Box::new(E::Num(k | 0x14))),
+				1 => E::Bin("|", s(), Box::new(E::Num(k))),
+				2 => E::Bin("&", s(), Box::new(E::Num(0xFF0F))),
+				3 => E::Bin(">>", s(), Box::new(E::Num(k % 5))),
+				4 => E::Bin("<<", Box::new(E::Bin("&", s(), Box::new(E::Num(0xFFFF)))), Box::new(E::Num(k % 9))),
+				5 => E::Bin("%", s(), Box::new(E::Num(k + 1))),
+				6 => E::Bin("/", s(), Box::new(E::Num(k))),
+				7 => E::Bin("*", Box::new(E::Bin("&", s(), Box::new(E::Num(0xFFF)))), Box::new(E::Num(k % 7))),
+				_ => E::Bin("^", Box::new(E::Num(k)), Box::new(E::Bin("|", s(), Box::new(E::Num(3))))),
+			};
+			let mut env = HashMap::new();
+			env.insert(name.to_owned(), v);
+			match term.eval(&env)
+			{
+				Some(tv) => E::Bin("+", Box::new(term), Box::new(E::Num(want - tv))),
+				None => E::Bin("+", s(), Box::new(E::Num(want - v))),
 			}
 		},
 		Some((name, v)) =>
@@ -599,8 +646,15 @@ fn gen_body(g: &mut Gen, n: usize, depth: usize, shape: &mut Vec<&'static str>, 
 			},
 			8 => {shape.push("align"); St::Align(*g.rng.pick(&[1u32, 2, 4, 8, 16, 3, 256]))},
 			9 | 10 | 11 => {shape.push("fixed-instr"); let (t, f) = g.rng.pick(FIXED); St::Ins(Ins::Fixed(t.to_string(), f()))},
-			12 => {shape.push("imm-instr"); St::Ins(match g.rng.below(5)
+			12 => {shape.push("imm-instr"); St::Ins(match g.rng.below(12)
 				{
+					5 => Ins::Udfw(E::Num(0)),
+					6 => Ins::Udf(E::Num(0)),
+					7 => Ins::Bkpt(E::Num(0)),
+					8 => Ins::LslImm(g.rng.below(8) as u8, g.rng.below(8) as u8, E::Num(0)),
+					9 => {let d = g.rng.below(8) as u8; Ins::SubImm3(d, (d + 1 + g.rng.below(7) as u8) % 8, E::Num(0))},
+					10 => Ins::StrbOff(g.rng.below(8) as u8, g.rng.below(8) as u8, E::Num(0)),
+					11 => Ins::AddSp(E::Num(0)),
 					0 => Ins::MovImm(g.rng.below(8) as u8, E::Num(0)),
 					1 => Ins::AddImm(g.rng.below(8) as u8, E::Num(0)),
 					2 => Ins::CmpImm(g.rng.below(8) as u8, E::Num(0)),
@@ -711,6 +765,12 @@ fn fill_exprs(stmts: &mut Vec<St>, rng: &mut Rng, env: &HashMap<String, i64>, st
 				{
 					Ins::MovImm(_, e) | Ins::AddImm(_, e) | Ins::CmpImm(_, e) | Ins::Svc(e) => {let r = rng.below(256) as i64; let w = *rng.pick(&[0, 1, 255, 254, 128, r]); *e = expr_for(rng, sr, w)},
 					Ins::LdrOff(_, _, e) => {let r = rng.below(32) as i64; let w = 4 * *rng.pick(&[0, 1, 31, 30, r]); *e = expr_for(rng, sr, w)},
+					Ins::Udfw(e) => {let r = rng.below(65536) as i64; let w = *rng.pick(&[0, 1, 65535, 4660, r]); *e = expr_for(rng, sr, w)},
+					Ins::Udf(e) | Ins::Bkpt(e) => {let r = rng.below(256) as i64; let w = *rng.pick(&[0, 255, r]); *e = expr_for(rng, sr, w)},
+					Ins::LslImm(_, _, e) => {let r = 1 + rng.below(31) as i64; let w = *rng.pick(&[1, 31, r]); *e = expr_for(rng, sr, w)},
+					Ins::SubImm3(_, _, e) => {let w = rng.below(8) as i64; *e = expr_for(rng, sr, w)},
+					Ins::StrbOff(_, _, e) => {let w = rng.below(32) as i64; *e = expr_for(rng, sr, w)},
+					Ins::AddSp(e) => {let w = 4 * rng.below(128) as i64; *e = expr_for(rng, sr, w)},
 					Ins::Branch(c, e) =>
 					{
 						// prefer a real label as the target when one is in range
@@ -1410,6 +1470,17 @@ const CORPUS: &[(&str, &[u8])] = &[
 	("F22", b".addr 0xFFFFFFFF; .du8 1; .du8 2;"),
 	("F22", b".addr 0xFFFFFFFE; .du16 0x1234; .du8 0x55;"),
 	("F22", b".addr 0xFFFFFFFE; NOP; NOP;"),
+	("top", b".addr 0xFFFFFFFF; .du8 last; .const last, 0x5A;"),
+	("top", b".addr 0xFFFFFFFE; .du16 fwd; .const fwd, 0x1234;"),
+	("top", b".addr 0xFFFFFFFC; .du32 fwd; .const fwd, 7;"),
+	("top", b".addr 0xFFFFFFFE; SVC fwd; .const fwd, 7;"),
+	("top", b".addr 0xFFFFFFFC; UDF.W fwd; .const fwd, 7;"),
+	("top", b".addr 0xFFFFFFFD; .du8 a; .du8 b; .du8 c; .const a, 1; .const b, 2; .const c, 3;"),
+	("top", b".addr 0xFFFFFFFF; .du8 1; x: .du8 x & 1;"),
+	("top", b".addr 0x100; .du8 1; .addr 0xFFFFFFFF; .du8 f; .addr 0x200; .du8 2; .const f, 9;"),
+	("lex", b".addr 0; .dstr \"caf\\u"),
+	("lex", b".addr 0; .dstr \"\\u{41}abc\xc3\xa9\";"),
+	("lex", b".addr 0; .dstr \"\\u{}\";"),
 	("misc", b".du8 1;"),
 	("misc", b"NOP;"),
 	("misc", b"x:"),
